@@ -758,7 +758,7 @@ class Executor(object):
         fn = self.p.funcs.get(name)
         if fn is None:
             raise Unsupported('call of unknown function ' + name)
-        if name.endswith('.init') and (fn.external or fn.d.get('pkg') not in self.p.packages):
+        if name.endswith('.init') and (fn.external or fn.d.get('pkg') not in self.p.packages or name == 'verifharness/verif.init'):
             return None
         if fn.external:
             raise Unsupported('call of external function ' + name)
